@@ -442,10 +442,12 @@ func Run(t *tr.W, thorough bool) {
 	for i := 0; i < n; i++ {
 		scenSubMgr(t, r)
 		scenBroadcaster(t, r, false)
+		scenBroadcasterConfirmedAtStop(t, r)
 		scenScanner(t, r)
 		scenBatchWriter(t, r)
 		scenWorkMgr(t, r)
-		scenRescan(t, r)
+		scenRescan(t, r, true)
+		scenRescan(t, r, false)
 	}
 	// recorded finding F8, reproduced once per run (costs one deadline)
 	scenBroadcaster(t, r, true)
